@@ -123,6 +123,14 @@ var schemas = map[string][]field{
 	"NHGEntryC":   {{"Id", "Id", kNat}, {"NextHopGroup", "NextHopGroup", kPtr("Unit")}},
 	// the RIB's orchestration (rib/rib.go)
 	"pendingEntry": {{"ni", "ni", kStr}, {"op", "op", kPtrNN("AFTOperationC")}},
+	"OrigTop":       {{"NextHopGroupNetworkInstance", "NextHopGroupNetworkInstance", kStr}, {"NextHopGroup", "NextHopGroup", kNat}, {"Prefix", "Prefix", kStr}, {"Label", "Label", kNat}},
+	"OrigNHGMember": {{"Key", "Key", kNat}, {"Index", "Index", kNat}},
+	"StringValue":   {{"Value", "Value", kStr}},
+	"UintValue":     {{"Value", "Value", kNat}},
+	"NewTop":        {{"NextHopGroupNetworkInstance", "NextHopGroupNetworkInstance", kPtr("StringValue")}, {"NextHopGroup", "NextHopGroup", kPtr("UintValue")}},
+	"NewNHGMember":  {{"Index", "Index", kNat}},
+	"NewNHG":        {{"NextHop", "NextHop", kind{k: "list", s: "NewNHGMember", elemNN: true}}},
+	"OrigNHG":       {{"NextHop", "NextHop", kind{k: "list", s: "OrigNHGMember", elemNN: true, keyed: true}}},
 	"RibOpResult":  {{"ID", "ID", kNat}},
 	"NHEntryC":    {{"Index", "Index", kNat}},
 	"AFTOperationC": {{"Id", "Id", kNat}, {"Op", "Op", kEnum}, {"Entry", "Entry", kind{k: "oneof", s: "AFTEntry"}}},
@@ -146,7 +154,7 @@ var leanStruct = map[string]string{
 	"IPv4EntryC": "IPv4EntryC", "IPv6EntryC": "IPv6EntryC", "LabelEntryC": "LabelEntryC", "NHGEntryC": "NHGEntryC", "NHEntryC": "NHEntryC", "AFTOperationC": "AFTOperationC", "ModifyRequestC": "ModifyRequestC",
 	"AFTErrorDetails": "AFTErrorDetails", "AFTResultC": "AFTResultC", "SessionParametersResult": "SessionParametersResult", "ModifyResponseC": "ModifyResponseC", "PendingOp": "PendingOp",
 	"ElectionReqDetails": "ElectionReqDetails", "SessionParamReqDetails": "SessionParamReqDetails", "OpDetailsResults": "OpDetailsResults", "COpResult": "COpResult",
-	"AFTResultList": "(List AFTResultC)", "Bool": "Bool", "pendingQueue": "PendingQueue", "pendingEntry": "PendingEntry", "RibOpResult": "RibOpResult",
+	"AFTResultList": "(List AFTResultC)", "Bool": "Bool", "pendingQueue": "PendingQueue", "pendingEntry": "PendingEntry", "RibOpResult": "RibOpResult", "OrigTop": "OrigTop", "OrigNHGMember": "OrigNHGMember", "OrigNHG": "OrigNHG", "StringValue": "StringValue", "UintValue": "UintValue", "NewTop": "NewTop", "NewNHGMember": "NewNHGMember", "NewNHG": "NewNHG",
 }
 
 func leanType(k kind) string {
@@ -1812,6 +1820,11 @@ func isNilIdent(e ast.Expr) bool {
 
 func trCond(e ast.Expr, en env, kt, kf cont) string {
 	switch v := e.(type) {
+	case *ast.CallExpr:
+		if render(v.Fun) == "isNil" && len(v.Args) == 1 {
+			// rib.isNil(x): the reflective nil test of a value of pointer type
+			return trCond(&ast.BinaryExpr{X: v.Args[0], Op: token.EQL, OpPos: v.Pos(), Y: &ast.Ident{Name: "nil", NamePos: v.Pos()}}, en, kt, kf)
+		}
 	case *ast.ParenExpr:
 		return trCond(v.X, en, kt, kf)
 	case *ast.UnaryExpr:
@@ -2499,6 +2512,20 @@ func trStmts(list []ast.Stmt, en env, k cont) string {
 					e1.declare(n.Name, val{lean: "(0 : Nat)", kd: kEnum})
 				case "any":
 					e1.declare(n.Name, val{lean: "AnyKey.none", kd: kind{k: "any"}})
+				case "[]*OpResult":
+					name := "OpResult"
+					if a, ok := cur.typeMap[name]; ok {
+						name = a
+					}
+					e1.declare(n.Name, val{lean: "[]", kd: kind{k: "list", s: name, elemNN: true}})
+				case "*aft.Afts_Ipv4Entry", "*aft.Afts_Ipv6Entry", "*aft.Afts_LabelEntry", "*aft.Afts_NextHopGroup":
+					sch := "OrigTop"
+					if t == "*aft.Afts_NextHopGroup" {
+						sch = "OrigNHG"
+					}
+					p := fresh("path")
+					e1.isNil[p] = true
+					e1.declare(n.Name, val{lean: "none", kd: kPtr(sch), path: p})
 				default:
 					fail(v.Pos(), "var of type %s", t)
 				}
@@ -2758,6 +2785,9 @@ func trRetVal(e ast.Expr, want string, en env) string {
 		return x.lean
 	}
 	if strings.HasPrefix(want, "list:") {
+		if isNilIdent(e) {
+			return "[]"
+		}
 		x := trExpr(e, en)
 		if x.kd.k != "list" || x.kd.s != strings.TrimPrefix(want, "list:") {
 			fail(e.Pos(), "returned value of kind %s, %s expected", x.kd, want)
